@@ -50,8 +50,9 @@ uint8_t vp_c03_char_boundary(char *ba, uint32_t k) { QAD *d = *(QAD**)ba; if (k 
 /* Symbolic-offset copies are done with a logarithmic shifter over a flat local array: every array index is a constant, so a
    copy costs ~6*TCAP if-then-elses instead of TCAP reads at a symbolic index (TCAP-way case split each). */
 static void vpl_t_load(uint16_t *t, const uint16_t *a, uint32_t n) { for (uint32_t i = 0; i < C03_TCAP; i++) t[i] = i < n ? a[i] : 0; }
-static void vpl_t_shr(uint16_t *t, uint32_t sh) { for (uint32_t k = 0; k < 6; k++) { uint32_t bit = 1u << k; if (sh & bit) { for (uint32_t j = 0; j < C03_TCAP; j++) { uint32_t i = C03_TCAP - 1 - j; t[i] = i >= bit ? t[i - bit] : 0; } } } }
-static void vpl_t_shl(uint16_t *t, uint32_t sh) { for (uint32_t k = 0; k < 6; k++) { uint32_t bit = 1u << k; if (sh & bit) { for (uint32_t i = 0; i < C03_TCAP; i++) t[i] = i + bit < C03_TCAP ? t[i + bit] : 0; } } }
+#define C03_SHBITS (C03_TCAP >= 64 ? 7 : 6)   /* shift amounts are <= C03_TCAP */
+static void vpl_t_shr(uint16_t *t, uint32_t sh) { for (uint32_t k = 0; k < C03_SHBITS; k++) { uint32_t bit = 1u << k; if (sh & bit) { for (uint32_t j = 0; j < C03_TCAP; j++) { uint32_t i = C03_TCAP - 1 - j; t[i] = i >= bit ? t[i - bit] : 0; } } } }
+static void vpl_t_shl(uint16_t *t, uint32_t sh) { for (uint32_t k = 0; k < C03_SHBITS; k++) { uint32_t bit = 1u << k; if (sh & bit) { for (uint32_t i = 0; i < C03_TCAP; i++) t[i] = i + bit < C03_TCAP ? t[i + bit] : 0; } } }
 static void vpl_t_store(QAD *d, const uint16_t *lo, uint32_t nlo, const uint16_t *hi, uint32_t n) { for (uint32_t i = 0; i < C03_TCAP; i++) C03_SD(d)[i] = i < nlo ? lo[i] : (i < n ? hi[i] : 0); }
 /* fresh block = a[0..na) ++ b[0..nb) */
 static QAD *c03_qs(const uint16_t *a, uint32_t na, const uint16_t *b, uint32_t nb) { if (!b) nb = 0; ASSERT(na <= C03_TCAP && nb <= C03_TCAP && na + nb <= C03_TCAP && na + nb <= QS_CAP, "text model: string longer than the bound of this harness");
@@ -61,7 +62,9 @@ static QAD *c03_slice(const uint16_t *a, uint32_t n, uint32_t from, uint32_t to)
   QAD *d = qs_new(0, C03_TCAP); d->f1 = to - from; uint16_t ta[C03_TCAP]; vpl_t_load(ta, a, n); vpl_t_shl(ta, from); vpl_t_store(d, ta, to - from, ta, to - from); return d; }
 /* ---- QString::append(const QString&): always a fresh block ---- */
 #undef _ZN7QString6appendERKS_
+#ifndef C03_LIT_TEXT   /* the literal text layer (lit_text.c) brings its own */
 char* _ZN7QString6appendERKS_(char *self, char *o) { QAD *a = *(QAD**)self, *b = *(QAD**)o; *(QAD**)self = c03_qs(qs_chars(a), a->f1, qs_chars(b), b->f1); return self; }
+#endif
 #endif
 /* ---- QObject::connect: the functor slot objects are captured and handed back to the harness ---- */
 #define C03_MAXCONN 6
